@@ -437,6 +437,10 @@ class SchedDriver:
                 evs = [nev] + evs
             rec["events"] = evs
             rec["snap"] = snapshot()
+            cond = sched.wait_queue
+            live = sum(1 for tk in asyncio.all_tasks(loop)
+                       if not tk.done() and getattr(tk.get_coro(), "__qualname__", "").endswith("_process_target"))
+            rec["wq"] = [bool(cond._lock.locked()), len(cond._lock._waiters or ()), len(cond._waiters), live]
             rec["pending"] = sorted(jn for jn, pt in pending.items() if not pt.done())
             steps.append(rec)
         me = asyncio.current_task()
@@ -540,6 +544,9 @@ def coq_history(case, obs):
                 items.append(f"ON {coq_str(e['job'])} {coq_status(e['status'])} {coq_list(fls)}")
         if st["events"] or st["snap"] != prev_snap:
             items.append(f"OSnap {coq_snapshot(st['snap'], bound)}")
+        if "wq" in st:
+            lk, nl, npk, nlive = st["wq"]
+            items.append(f"OQuiet {coq_bool(lk)} {coq_nat(nl)} {coq_nat(npk)} {coq_nat(nlive)}")
         prev_snap = st["snap"]
     body = "CHist " + coq_list(items)
     for nm, term in reversed(binds):
